@@ -1,5 +1,5 @@
 CONSTANTS N = 2  D = 2  MaxExtra = 2
-  ShapeIds = {"bent", "onesided"}
+  ShapeIds = {"bent"}
   Vals = {0, 3}  Sparse = {FALSE, TRUE}
 INIT Init
 NEXT NextGen
